@@ -25,7 +25,8 @@ def gen_hierarchy(rng, max_flows=5, depth_bias=False, with_groups=True, with_whe
         acts = 0
         kids = list(children[i])
         k = rng.randint(1, 4) + len(kids)
-        slots = ["kid"] * len(kids) + [rng.choice(["match", "act", "actwait", "match"]) for _ in range(k - len(kids))]
+        kinds = ["match", "act", "actwait", "match"] + (["actor"] if with_groups else [])
+        slots = ["kid"] * len(kids) + [rng.choice(kinds) for _ in range(k - len(kids))]
         rng.shuffle(slots)
         if i == 0 and main_kids_first:
             slots.sort(key=lambda x: x != "kid")
@@ -68,6 +69,10 @@ def gen_hierarchy(rng, max_flows=5, depth_bias=False, with_groups=True, with_whe
             elif sl == "act":
                 acts += 1
                 lines.append("  start F%dS%dAction() as $a%d" % (i, acts, acts))
+            elif sl == "actor":
+                # or-/and-group written directly over actions: forked heads sit on actionable elements themselves
+                acts += 2
+                lines.append("  await F%dS%dAction() %s F%dS%dAction()" % (i, acts - 1, rng.choice(["or", "or", "and"]), i, acts))
             elif sl == "actwait":
                 acts += 1
                 lines.append("  start F%dS%dAction() as $a%d" % (i, acts, acts))
